@@ -91,4 +91,22 @@ def denseTask (add : V → V → V) (trow : List Nat) (trialRows : List (List Na
     trow.zipIdx.flatMap fun (r, i) =>
       srow.zipIdx.flatMap fun (c, j) => rmw add (r, c) (val k i j)
 
+/-- the cells touched by a task, in program order: `(false, c)` = load, `(true, c)` = store -/
+def trace {C V : Type} : Task C V → List (Bool × C)
+  | [] => []
+  | .read c :: p => (false, c) :: trace p
+  | .write c _ :: p => (true, c) :: trace p
+
+/-- slot written by iteration `index` of the singular `prange` loops for `(test_fun_index, trial_fun_index) = (i, j)` -/
+def singularSlot (nshapeTest nshapeTrial index i j : Nat) : Nat :=
+  nshapeTrial * nshapeTest * index + i * nshapeTrial + j
+
+/-- slot written by iteration `element_index` of the sparse `prange` loop -/
+def sparseSlot (nshapeTest nshapeTrial index i j : Nat) : Nat :=
+  nshapeTest * nshapeTrial * index + i * nshapeTrial + j
+
+/-- slots in the order in which the sequential loop `index -> test_fun_index -> trial_fun_index` visits them -/
+def slotOrder (slot : Nat → Nat → Nat → Nat) (n nshapeTest nshapeTrial : Nat) : List Nat :=
+  (List.range n).flatMap fun idx => (List.range nshapeTest).flatMap fun i => (List.range nshapeTrial).map fun j => slot idx i j
+
 end BemppVerif.Model.Sched
